@@ -57,7 +57,7 @@ def r4_items(tier):
         elif n == 1:
             combos = [['code'], ['c256'], ['rgb']]
         elif n == 2:
-            combos = [['code', 'code'], ['code', 'c256'], ['rgb', 'code']] if tier == 'quick' else \
+            combos = [['code', 'code'], ['code', 'c256'], ['rgb', 'code'], ['c256', 'rgb'], ['c256', 'c256']] if tier == 'quick' else \
                 [[a, b] for a in ('code', 'c256', 'rgb') for b in ('code', 'c256', 'rgb')]
         else:
             combos = [['code', 'code', 'code'], ['code', 'c256', 'code']]
